@@ -213,8 +213,14 @@ func c10Cases(c runCfg) ([]*scratch.Pkg, []string, map[string]interface{}) {
 				var pl c10plan
 				var r dialect.Response
 				switch {
-				case key == "default" && rng.Intn(2) == 0:
+				case key == "default" && (rng.Intn(2) == 0 || pi%6 == 5):
 					cm := dfltComps[0]
+					if pi%6 == 5 {
+						// a component that other operations use under a status code: the generator refuses such a document (a
+						// component response is either a default one or a status-coded one); were it accepted, the values below
+						// would not fit the generated type and the run would show it
+						cm = codeComps[0]
+					}
 					r, pl = dialect.Response{Status: key, Ref: cm.name}, cm.pl
 					stats["component-default"]++
 				case key != "default" && rng.Intn(3) == 0:
